@@ -294,7 +294,7 @@ def batch_replay(plan, wdir, crate, pending, log):
     `cargo kani playback` build runs all generated tests. returns {harness: (verdict, info)}"""
     # ONE Kani invocation for all failing harnesses (each separate `--harness` selection would re-run the compiler on the crate)
     # (`--concrete-playback` is incompatible with `--jobs`: the selected harnesses run one after another)
-    cmd = kani_cmd(plan, wdir, ["--harness-timeout", str(plan.timeout_s or 300)])
+    cmd = kani_cmd(plan, wdir, ["--harness-timeout", str(3 * (plan.timeout_s or 300))])   # trace generation makes the re-run slower than the original
     for (h, r, key, row, fc) in pending:
         cmd += ["--harness", key or h.name]
     cmd += ["--exact", "-Z", "concrete-playback", "--concrete-playback=print"]
@@ -512,7 +512,7 @@ def run_property(plan, tier, seed, t_start):
         # genuine candidate: replayed natively below (batched: one native build for all of them)
         pending.append((h, r, key, row, fc))
 
-    MAXR = int(os.environ.get("VERIF_MAX_REPLAY", "40"))
+    MAXR = int(os.environ.get("VERIF_MAX_REPLAY", "40" if tier == "quick" else "400"))
     # failures that carry a property assertion of the harness first; pure heap-model signatures last
     pending.sort(key=lambda it: (1 if heap_model_signature(it[4]) else 0, 0 if any((c.get("category") == "assertion" and "kani_lib.c" not in json.dumps(c.get("location") or {})) for c in it[4]) else 1))
     for (h, r, key, row, fc) in pending[MAXR:]:
